@@ -2,7 +2,7 @@
 import re
 
 from analysis import (Prov, Guards, fmt, fmt_short, walk, roots, short, comparison, find_calls, callee_matches,
-                      must_pass, named_switches, const_int_of, normalised_cmp, cmp_intervals, linear)
+                      must_pass, named_switches, const_int_of, normalised_cmp, cmp_intervals, linear, canon, option_edges)
 from facts import AnchorError, strip_closure
 from harness import Rule, guarded
 import queryx
@@ -311,7 +311,51 @@ def r4(ctx, tables):
     return rule
 
 
+def r5(ctx, tables):
+    """'every candidate it learned of was contacted' starts with every reported peer becoming a candidate"""
+    facts = ctx.facts
+    rule = Rule("C10.R5", "on_success makes every reported peer a candidate: the loop runs over the whole answer and every iteration reaches the insert", floor=4,
+                engine="A-prov + A-path")
+    for which in ("closest", "predicate"):
+        meta = tables[which][1]
+        osb, op = meta["on_success"]["body"], meta["on_success"]["prov"]
+        rule.analysed(osb)
+        g = Guards(osb, op, facts)
+        param = ("param", 3, osb.local_name(3) or "closer_peers")
+        nexts = []
+        for bi, t in osb.calls():
+            if re.search(r"Iterator>?::next$", short(t.callee() or "")) and t.args:
+                e = canon(op.operand(t.args[0]))
+                if any(x == param for x in walk(e)):
+                    nexts.append((bi, t, e))
+        inserts = [bi for bi, t in osb.calls() if callee_matches(t, r"btree_map::Entry::<.*>::or_insert$", r"Entry::or_insert$")]
+        if not nexts or not inserts:
+            raise AnchorError("[%s] on_success: the loop over the reported peers or the insert was not found" % which)
+        for bi, t, e in nexts:
+            x = e
+            while x[0] == "call" and re.search(r"(::into_iter|::iter)$", short(x[1])) and x[2]:
+                x = canon(x[2][0])
+            rule.check(x == param, "[%s] the loop iterates over the whole answer" % which, "%s|on_success|partial-iteration" % which,
+                       "[%s] on_success iterates over %s, not over every reported peer: a peer the answer reported never becomes a candidate and is never contacted"
+                       % (which, fmt_short(e)[:160]), loc=osb.loc(t.line))
+            some, none = option_edges(g, lambda y, t=t: y[0] == "call" and y[1] == t.callee() and True)
+            some = [(sb, tb) for sb, tb in some if osb.dominates(bi, sb)]
+            ok = bool(some)
+            for sb, tb in some:
+                r_ = osb.reachable(tb, removed_blocks=inserts)
+                if bi in r_ or any(rb in r_ for rb in osb.return_blocks()):
+                    ok = False
+            rule.check(ok, "[%s] every reported peer reaches entry(distance).or_insert" % which, "%s|on_success|peer-skipped" % which,
+                       "[%s] on_success can go on to the next reported peer (or leave) without inserting the current one" % which, loc=osb.loc(t.line))
+        shrink = [short(t.callee() or "") for bi, t in osb.calls() if t.args and any(y == param for y in roots(op.operand(t.args[0]))) and
+                  re.search(r"::(truncate|drain|retain|retain_mut|pop|split_off|clear|dedup|dedup_by_key|dedup_by|remove|swap_remove|resize|split_at|split_first|split_last|get|first|last|chunks|windows)$",
+                            short(t.callee() or ""))]
+        rule.check(not shrink, "[%s] the answer is not shortened before it is iterated" % which, "%s|on_success|answer-shortened" % which,
+                   "[%s] on_success applies %s to the reported peers" % (which, ", ".join(shrink)), loc=osb.loc(osb.line))
+    return rule
+
+
 def run(ctx):
     tables = getattr(ctx, "query_tables", None) or {w: queryx.extract(ctx.facts, w) for w in ("closest", "predicate")}
     G = lambda l, f, *a: guarded("C10." + l, f, ctx, *a)
-    return G("R1", r1, tables) + G("R2-R3", r2_r3, tables) + G("R4", r4, tables)
+    return G("R1", r1, tables) + G("R2-R3", r2_r3, tables) + G("R4", r4, tables) + G("R5", r5, tables)
